@@ -53,8 +53,14 @@ def mon_early_return(case, lines):
     """a wait / arrive_and_wait returned before `start` decrements of the counter had happened"""
     start = case['cfg'][0]
     dec = 0
+    counted = {}
     for i, t, k, v, op in _walk(case, lines):
-        if k == K['RMW']:
+        if k == K['INVOKE']:
+            counted[t] = False
+        if k == K['RMW'] and not counted.get(t):
+            # an arrival is a call of arrive / arrive_and_wait, not a decrement: a call that decrements twice
+            # (seeded C10-7: once more per spurious wake-up) is still one arrival
+            counted[t] = True
             dec += 1
         if k == K['RET'] and op in (WAIT, ARRIVE_WAIT) and dec < start:
             return 'thread %d returned from wait at trace line %d after %d of %d arrivals' % (t, i, dec, start)
